@@ -1,6 +1,7 @@
 package codec
 
 import (
+	"errors"
 	"fmt"
 	"strings"
 
@@ -33,32 +34,43 @@ const (
 	opReset             // w.Reset(nil)
 	numReduced
 
-	opVBuild         = iota - 1 // w.Value().Build()
-	opMFieldStr                 // M.Field(300).String("str")
-	opMFieldAnyEmpty            // M.Field(5).Any(nil)
-	opLAny                      // L.Any(valid bytes)
-	opLAnyEmpty                 // L.Any(nil)
-	opLString                   // L.String("elem")
-	opMMerge                    // M.Merge(valid message)
-	opMCopy                     // M.Copy(valid message)
-	opErr                       // w.Err()
-	opLLen                      // L.Len()
-	opMHasField                 // M.HasField(1)
-	opMBuild                    // M.Build() on the latest handle
-	opLBuild                    // L.Build()
-	opM0FieldInt                // first message handle .Field(9).Int64(1)  (stale write)
-	opL0Int                     // first list handle .Int32(1)
-	opWValueStr                 // w.Value().String("v")
-	opResetBuf                  // w.Reset(buffer with garbage)
-	opMFieldBytesBig            // M.Field(7).Bytes(70000 bytes)
-	opMEndAgain                 // End on a handle VARIABLE that was already ended (known finding: nil dereference)
+	opVBuild          = iota - 1 // w.Value().Build()
+	opMFieldStr                  // M.Field(300).String("str")
+	opMFieldAnyEmpty             // M.Field(5).Any(nil)
+	opLAny                       // L.Any(valid bytes)
+	opLAnyEmpty                  // L.Any(nil)
+	opLString                    // L.String("elem")
+	opMMerge                     // M.Merge(valid message)
+	opMCopy                      // M.Copy(valid message)
+	opErr                        // w.Err()
+	opLLen                       // L.Len()
+	opMHasField                  // M.HasField(1)
+	opMBuild                     // M.Build() on the latest handle
+	opLBuild                     // L.Build()
+	opM0FieldInt                 // first message handle .Field(9).Int64(1)  (stale write)
+	opL0Int                      // first list handle .Int32(1)
+	opWValueStr                  // w.Value().String("v")
+	opResetBuf                   // w.Reset(buffer with garbage)
+	opMFieldBytesBig             // M.Field(7).Bytes(70000 bytes)
+	opMEndAgain                  // End on a handle VARIABLE that was already ended (known finding: nil dereference)
+	opMFieldWriteFail            // spec.WriteField(M.Field(8), v, encoder that fails midway): the error must poison the writer
+	opLAddFail                   // spec.NewValueListWriter(L, failing encoder).Add(v)
 	numOps
 )
 
 var opNames = [...]string{"w.Message", "w.List", "w.Value.Int32", "M.Field(1).Int32", "M.Field(2).Message", "M.Field(3).List", "L.Int32", "L.Message", "L.List",
 	"M.End", "L.End", "M0.Build", "L0.Build", "M.Field(4).Any(valid)", "w.Free", "w.Reset(nil)",
 	"w.Value.Build", "M.Field(300).String", "M.Field(5).Any(empty)", "L.Any(valid)", "L.Any(empty)", "L.String", "M.Merge", "M.Copy", "w.Err", "L.Len", "M.HasField",
-	"M.Build", "L.Build", "M0.Field(9).Int64", "L0.Int32", "w.Value.String", "w.Reset(dirty buffer)", "M.Field(7).Bytes(70000)", "M.End(again on ended variable)"}
+	"M.Build", "L.Build", "M0.Field(9).Int64", "L0.Int32", "w.Value.String", "w.Reset(dirty buffer)", "M.Field(7).Bytes(70000)", "M.End(again on ended variable)",
+	"WriteField(M.Field(8), failing encoder)", "ValueListWriter(L, failing encoder).Add"}
+
+// failingEncoder is a user write function (as struct encoders are) that writes part of its output and fails.
+var errEncoder = errors.New("verif: encoder failed midway")
+
+func failingEncoder(b buffer.Buffer, v int32) (int, error) {
+	b.Write([]byte{0xde, 0xad})
+	return 0, errEncoder
+}
 
 func progString(ops []byte) string {
 	s := make([]string, len(ops))
@@ -199,7 +211,7 @@ func runMisuse(ops []byte, useBuffer bool) (out *c12Outcome, rootBuilds int, err
 				observe(w.Value().String("v"))
 			case opVBuild:
 				built(w.Value().Build())
-			case opMFieldInt, opMFieldStr, opMFieldAny, opMFieldAnyEmpty, opMFieldMsg, opMFieldList, opMMerge, opMCopy, opMHasField, opMFieldBytesBig:
+			case opMFieldInt, opMFieldStr, opMFieldAny, opMFieldAnyEmpty, opMFieldMsg, opMFieldList, opMMerge, opMCopy, opMHasField, opMFieldBytesBig, opMFieldWriteFail:
 				m, _, ok := lastM()
 				if !ok {
 					return
@@ -225,6 +237,8 @@ func runMisuse(ops []byte, useBuffer bool) (out *c12Outcome, rootBuilds int, err
 					_ = m.HasField(1)
 				case opMFieldBytesBig:
 					observe(m.Field(7).Bytes(bigBytes))
+				case opMFieldWriteFail:
+					observe(spec.WriteField(m.Field(8), int32(1), failingEncoder))
 				}
 			case opM0FieldInt:
 				if m, _, ok := firstM(); ok {
@@ -268,7 +282,7 @@ func runMisuse(ops []byte, useBuffer bool) (out *c12Outcome, rootBuilds int, err
 					return
 				}
 				observe(h.h.End())
-			case opLInt, opLString, opLAny, opLAnyEmpty, opLMessage, opLList, opLEnd, opLBuild, opLLen:
+			case opLInt, opLString, opLAny, opLAnyEmpty, opLMessage, opLList, opLEnd, opLBuild, opLLen, opLAddFail:
 				if len(ls) == 0 {
 					return
 				}
@@ -290,6 +304,8 @@ func runMisuse(ops []byte, useBuffer bool) (out *c12Outcome, rootBuilds int, err
 					observe(l.End())
 				case opLBuild:
 					built(l.Build())
+				case opLAddFail:
+					observe(spec.NewValueListWriter(l, failingEncoder).Add(1))
 				case opLLen:
 					_ = l.Len()
 					if e0 != nil && l.Err() == nil {
@@ -458,7 +474,9 @@ func C12(c *runner.Cfg) *report.Result {
 		{opWMessage, opM0FieldInt, opMFieldBytesBig, opM0Build},
 		{opWMessage, opMFieldAny, opM0FieldInt, opMFieldBytesBig, opMFieldInt, opM0Build},
 		{opWList, opLMessage, opM0FieldInt, opMFieldBytesBig, opMEnd, opL0Build},
-		{opWMessage, opMFieldInt, opM0Build, opMFieldInt, opWMessage, opErr}, // calls after the root Build
+		{opWMessage, opMFieldInt, opM0Build, opMFieldInt, opWMessage, opErr},        // calls after the root Build
+		{opWMessage, opMFieldInt, opMFieldWriteFail, opMFieldInt, opErr, opM0Build}, // a failing user encoder poisons the writer
+		{opWList, opLInt, opLAddFail, opLInt, opErr, opL0Build},
 	}
 	for i, ops := range fixed {
 		record("fixed", i, ops, false)
